@@ -48,9 +48,9 @@ func (st *Struct) Caps() schema.Caps {
 	c.NoPlainLeaves = st.plain
 	// (map-backed lists keep string/int keys: the generator gives other key types to slice lists only)
 	if st.useNode && !st.plain {
-		c.KeyTypes = []string{"int64", "uint8", "enum", "decimal64"}
+		c.KeyTypes = []string{"int64", "uint8", "enum", "decimal64", "decimal64x"}
 	} else {
-		c.KeyTypes = []string{"int64", "uint8", "decimal64"}
+		c.KeyTypes = []string{"int64", "uint8", "decimal64", "decimal64x"}
 	}
 	return c
 }
@@ -79,7 +79,7 @@ func leafType(s *schema.Node) reflect.Type {
 		t = reflect.TypeOf(uint8(0))
 	case "boolean":
 		t = reflect.TypeOf(false)
-	case "decimal64":
+	case "decimal64", "decimal64x":
 		t = reflect.TypeOf(float64(0))
 	default:
 		panic("leafType " + s.Type)
